@@ -617,6 +617,9 @@ func (e *Engine) loadContracts() error {
 		if isForeignName(strings.TrimPrefix(key, c.Pkg+".")) || strings.Contains(key, ".(") && e.funcs[key] == nil && e.isIfaceKey(key) {
 			continue
 		}
+		if c.IsLemma {
+			continue
+		}
 		if e.funcs[key] == nil {
 			return fmt.Errorf("%s:%d: contract for unknown function %s", c.File, c.Line, key)
 		}
